@@ -86,6 +86,8 @@ pub struct SchedOpts {
     pub check_lin: bool,
     /// check C14's at-rest bound with this memory limit
     pub c14: bool,
+    /// clause reported when the sequential stores issued after the concurrent phase break the bound
+    pub c14_clause: &'static str,
     /// check that (accounted usage - stored bytes) is the same before and after the concurrent
     /// phase (C15; only meaningful for programs whose commands account exactly when run alone)
     pub c15: bool,
@@ -450,6 +452,30 @@ fn body(p: &Arc<Prepared>) {
         Some(u) => u as i64 as i128 - dump_at_rest.iter().map(|d| d.size() as i128).sum::<i128>(),
         None => 0,
     };
+    // C14: whatever the race did to the accounting, stores issued afterwards one at a time must
+    // keep the sequential bound (content <= L + the record just written)
+    let mut follow_up: Option<String> = None;
+    if p.opts.c14 {
+        if let Policy::Random(l) = p.cfg.policy {
+            let n = ((l + 64) / 64 + 3).min(40) as u8;
+            for i in 0..n {
+                let key = [b'f', b'0' + i];
+                let out = c0.exec(&Req::store(op::SET, &key, &[b'F'; 40], 0, 0, 0).opaque(0xf0 + i as u32).bytes());
+                if out.panic.is_some() {
+                    break;
+                }
+                let sum: u64 = world.dump().iter().map(|d| d.size()).sum();
+                if sum > l + 64 && follow_up.is_none() {
+                    follow_up = Some(format!(
+                        "after the concurrent phase, sequential store #{} of a 64-byte record leaves {} bytes stored > limit {} + 64",
+                        i + 1,
+                        sum,
+                        l
+                    ));
+                }
+            }
+        }
+    }
     let mut finals: Vec<(Vec<u8>, Option<Resp>)> = vec![];
     for k in &p.prog.keys {
         let out = c0.exec(&Req::get(op::GET, k).opaque(0xf1).bytes());
@@ -458,7 +484,7 @@ fn body(p: &Arc<Prepared>) {
     let dump = world.dump();
     let mut ops = log.lock().unwrap().clone();
     ops.sort_by_key(|o| (o.client, o.index));
-    let res = evaluate(p, &ops, &finals, &dump_at_rest, &dump, drift1 - drift0);
+    let res = evaluate(p, &ops, &finals, &dump_at_rest, &dump, drift1 - drift0, follow_up);
     LAST.with(|l| *l.borrow_mut() = Some(res));
 }
 
@@ -469,6 +495,7 @@ fn evaluate(
     dump_at_rest: &[DumpItem],
     dump: &[DumpItem],
     drift_change: i128,
+    follow_up: Option<String>,
 ) -> ExecResult {
     // cache key: responses + precedence relation + final content
     let mut h = DefaultHasher::new();
@@ -486,6 +513,7 @@ fn evaluate(
     }
     dump_at_rest.len().hash(&mut h);
     drift_change.hash(&mut h);
+    follow_up.hash(&mut h);
     let key = h.finish();
     if let Some(v) = VERDICTS.with(|m| m.borrow().get(&key).cloned()) {
         return ExecResult { viol: v, outcome_hash: key };
@@ -551,6 +579,11 @@ fn evaluate(
                     ),
                 ));
             }
+        }
+    }
+    if viol.is_none() {
+        if let Some(f) = &follow_up {
+            viol = Some((p.opts.c14_clause, format!("{} ; ops: {}", f, show_ops(ops))));
         }
     }
     if viol.is_none() && p.opts.c15 && drift_change != 0 {
